@@ -107,6 +107,46 @@ Theorem C05_grad_values_checker_sound :
 Proof. exact C05_grad_values_checkb_sound. Qed.
 Print Assumptions C05_grad_values_checker_sound.
 
+(* parameters with a non-default memory layout: `viewable` decides exactly whether SOME strided view of shape M
+   with the parameter's logical order exists (refusals are accepted by the check only where it is false) *)
+Theorem C05_viewable_sound :
+  forall shape pstr M, viewable shape pstr M = true ->
+  forall i, 0 <= i < prodl shape -> loc shape pstr i = loc M (unit_strides shape pstr M) i.
+Proof. exact viewable_sound. Qed.
+Print Assumptions C05_viewable_sound.
+
+Theorem C05_viewable_complete :
+  forall shape pstr M s, allpos M -> prodl M = prodl shape -> length s = length M ->
+  (forall i, 0 <= i < prodl M -> loc shape pstr i = loc M s i) -> viewable shape pstr M = true.
+Proof. exact viewable_complete. Qed.
+Print Assumptions C05_viewable_complete.
+
+Theorem C05_layout_checker_sound :
+  forall shape pstr thr obs, C05_layout_checkb shape pstr thr obs = true ->
+  Permutation (concat (map view_offsets obs)) (map (loc shape pstr) (Zrange (prodl shape)))
+  /\ Forall (fun v => Forall (fun d => 1 <= d <= thr) (vsizes v)) obs.
+Proof. exact C05_layout_checkb_sound. Qed.
+Print Assumptions C05_layout_checker_sound.
+
+Theorem C05_layout_grad_checker_sound :
+  forall shape pstr obs_p obs_g, C05_layout_grad_checkb shape pstr obs_p obs_g = true ->
+  Forall2 (fun p g => Permutation (view_offsets p) (map (loc shape pstr) (snd g)) /\ vsizes p = fst g) obs_p obs_g.
+Proof. exact C05_layout_grad_checkb_sound. Qed.
+Print Assumptions C05_layout_grad_checker_sound.
+
+Theorem C05_update_raw_checker_sound :
+  forall bl bases raw, update_raw_okb bl bases raw = true ->
+  length bl = length bases
+  /\ Forall (fun ov => 0 <= fst ov /\ nth (Z.to_nat (fst ov)) raw (-1) = snd ov) (scatter bl (update_dirs bl bases)).
+Proof. exact update_raw_okb_sound. Qed.
+Print Assumptions C05_update_raw_checker_sound.
+
+(* multi-call stream encoding: parameter i's blocks shifted by 1000*i address 1000*i + their logical indices *)
+Theorem C05_view_offsets_shift :
+  forall k v, view_offsets (shift_view k v) = map (Z.add k) (view_offsets v).
+Proof. exact view_offsets_shift. Qed.
+Print Assumptions C05_view_offsets_shift.
+
 Theorem C05_update_checker_sound :
   forall bl bases storage, update_okb bl bases storage = true ->
   length (scatter bl (update_dirs bl bases)) = length storage
